@@ -42,7 +42,7 @@ def main():
         engines.setdefault(c["engine"], []).append(c["property_id"])
     m = {
         "version": 1,
-        "setup_cmd": "cd /verif/engine && CARGO_NET_OFFLINE=true cargo build --release --offline",
+        "setup_cmd": "cd /verif/engine && CARGO_NET_OFFLINE=true cargo build --release --offline " + " ".join("-p " + e for e in sorted(engines)),
         "hooks": {
             "guard": "verif_hooks",
             "enable": "no source hooks exist: engines link /repo crates by path dependency and drive public APIs only; the name verif_hooks is reserved",
